@@ -606,8 +606,11 @@ func (f *frame) appendOp(s, t Val, pos string) Val {
 		q2 := sym(vc.fresh("i"))
 		f.assume("(forall ((" + q2 + " Int)) " + Implies(And(app("<=", "0", q2), app("<", q2, newLen)), Eq(Select(fresh, q2),
 			Ite(app("<", q2, sl), Select(dst0, app("+", s.Fs[1].S, q2)), Select(src, app("+", t.Fs[1].S, app("-", q2, sl)))))) + ")")
-		upd := Ite(fits, Store(cur, s.Fs[0].S, inplace), Store(cur, freshBase, fresh))
-		h.set(f.st, key, sort, Ite(noop, cur, upd))
+		// a single store keeps the heap term a flat chain (friendlier to the solvers than
+		// an ite over whole heaps): E' = E[tgt := arr'], where a no-op rewrites the same value
+		tgt := vc.Def("app.tgt", "Int", Ite(Or(fits, noop), s.Fs[0].S, freshBase))
+		arr := Ite(noop, dst0, Ite(fits, inplace, fresh))
+		h.set(f.st, key, sort, Store(cur, tgt, arr))
 	}
 	res := h.mkSlice(s.T,
 		Ite(Or(fits, noop), s.Fs[0].S, freshBase),
